@@ -12,21 +12,38 @@ LEVEL_TEXT = ('Partial. Coq theorems over R: the regenerated flow direction is t
               'eqps non-decreasing over any history, yield consistency to the solver tolerance, idempotence for rate-independent hardening; a '
               '(nearly) stationary point of the incremental potential minimises it over eqps >= eqps_old when the hardening is convex; flow stresses of '
               'linear / Voce / power-law hardening are the derivatives of the regenerated energies and are monotone; isochoric flow given '
-              'det(exp A) = exp(tr A); the elastic-branch threshold of the yield test must equal the root tolerance (overstress bound max(thr, tol), tight). All conditional on the root finder returning a number (iteration cap: C17 finding F7, here F13); flat hardening is not excluded (end-point rule). The tensor-level histories for the three '
-              'kinematics, rate sensitivity and energy/stress equality before/after committing are tied/tested on the code (L1/L2), not proved.')
+              'det(exp A) = exp(tr A); the elastic-branch threshold of the yield test must equal the root tolerance (overstress bound max(thr, tol), tight). '
+              'Round 3: RATE SENSITIVITY proved -- the overstress k_flow is the derivative of the regenerated kinetic potential for eqps > eqps_old, its '
+              'one-sided difference quotient at eqps_old tends to k_flow(eqps_old) = 0, k_slope is the derivative of k_flow, k_flow is non-negative and '
+              '(strictly) monotone; hence for the three laws with admissible constants, with rate sensitivity: Delta eqps >= 0, yield consistency with '
+              'flow stress + overstress, and minimality of the incremental potential over eqps >= eqps_old although it is differentiable only on the open '
+              'half line (new lemma: derivative on (lo, oo) + right-continuity at lo suffice). TENSOR LEVEL for the kinematics with an additive state '
+              "update ('small deformations': regenerated linear strain, executed and tied at binary64; 'seth hill': regenerated strain with pow_symm an "
+              'arbitrary function): the residual handed to the root finder (derivative of the regenerated deviatoric energy along the return direction + '
+              'flow stress) is the scalar residual, so the tensor update is the scalar update; along ANY history of (displacement gradient, dt), all laws, '
+              'with or without rate sensitivity, eqps is non-decreasing and the plastic strain keeps its trace (exactly isochoric, no assumption); committing '
+              'the state (rate-independent, deviators above the flow-direction threshold 1e-16): same elastic strain, stress on/inside the yield surface '
+              'in tensor terms, tensor-level idempotence, SAME ENERGY DENSITY before and after committing. '
+              'All conditional on the root finder returning a number (iteration cap: C17 finding F7, here F13); flat hardening is not excluded '
+              "(end-point rule). NOT proved: scalar<->tensor equivalence and commit invariance for 'large deformations' (multiplicative update; needs the "
+              'functional calculus of exp_symm/log_sqrt_symm), and that jax.grad of the energy before committing equals the elastic stress of the '
+              'committed state (envelope argument) -- both tied/tested on the code (L1/L2); jax.grad of the regenerated hardening energies = written-out '
+              'flow stresses is tied by the stream flow_stress.')
 TECHNIQUE = 'Coq proof (Reals + Coquelicot) over kernels regenerated from the Python AST and a scalar state machine reusing the C17 model; vm_compute/PrimFloat correspondence'
 GEN = ['ScalarRootFind', 'Hardening', 'TensorMath', 'J2Flow', 'J2Elastic']
-TARGETS = ['proofs/L_C09.vo', 'model/M_C09.vo']
-COQ_FILES = ['base/Num.v', 'model/M_C17.v', 'model/M_C09.v', 'proofs/L_C17.v', 'proofs/L_C09.v', 'props/P_C09.v']
+TARGETS = ['proofs/L_C09.vo', 'proofs/L_C09r.vo', 'proofs/L_C09T.vo', 'model/M_C09.vo', 'model/M_C09T.vo']
+COQ_FILES = ['base/Num.v', 'model/M_C17.v', 'model/M_C09.v', 'model/M_C09T.v', 'proofs/L_C17.v', 'proofs/L_C09.v', 'proofs/L_C09r.v', 'proofs/L_C09T.v', 'props/P_C09.v']
 TRUSTED = ['Coq 8.16.1 kernel + vm_compute (no native_compute)',
            'tools/vlib/py2coq.py translator (Hardening.{linear,voce,power_law,power_law_rate_sensitivity}, J2Plastic.compute_flow_direction, '
            'elastic_deviatoric_free_energy, TensorMath.dev, ScalarRootFind loop kernels)',
            'hand-written scalar reduction model/M_C09.v (yield test, bracket, guess, settings), tied by the correspondence: model Delta eqps at binary64 '
            'vs compute_state_new on seeded histories for all kinematics x hardening laws +- rate sensitivity',
-           'flow stresses/slopes written out in the model (jax.grad of the hardening energy in the code); proved to be the derivatives for the three '
-           'rate-independent laws, compared numerically for the rate term',
+           'flow stresses/slopes written out in the model (jax.grad of the hardening energy in the code); proved to be the derivatives of the regenerated '
+           'energies for the three laws and the rate term; compared at binary64 with jax.grad / jax.grad(jax.grad) of the code (stream flow_stress)',
+           'hand-written tensor-level model/M_C09T.v of compute_state_increment / compute_state_new_small_deformations / _energy_density / '
+           'incremental_potential (strain kernels regenerated), tied by the stream tensor_small (state, energy density, potential at binary64)',
            'binary64 exp/ln of the model are approximations (1e-15 relative) used only for execution']
-ASSUMPTIONS = ['exact real arithmetic in theorems (flat hardening: the residual at the upper bracket end is within the tolerance, the repaired root finder returns that end; F12 fixed)', 'Section hypothesis det(exp A) = exp(tr A) for TensorMath.exp_symm (C09_isochoric)',
+ASSUMPTIONS = ['C09_tensor_residual_is_scalar_residual: Section hypotheses DelT = d/d(eqps) of the regenerated deviatoric energy along the return direction and D2T = its derivative (what jax.jacfwd / jax.grad deliver), sum rule for the flow-stress term', 'commit invariance: deviators of the trial and of the committed elastic strain above the flow-direction threshold 1e-16 (stated premise), 0 < Y0, eqps_old >= 0', 'exact real arithmetic in theorems (flat hardening: the residual at the upper bracket end is within the tolerance, the repaired root finder returns that end; F12 fixed)', 'Section hypothesis det(exp A) = exp(tr A) for TensorMath.exp_symm (C09_isochoric)',
                'flow stress does not drop between eqps_old and the elastic-predictor bound (holds for H >= 0, Ysat >= Y0, n > 0; stated as a premise)',
                'the root finder returns a number (otherwise NaN state: C17 finding F7)',
                'jax.grad / jacfwd of the potential is its derivative']
@@ -34,7 +51,7 @@ RULE = ('inputs: seeded material constants (E, nu, Y0, hardening parameters, rat
         'x rate sensitivity (quick: 6 of 18 per run covering every kinematics and law; thorough: all 18), batches of multi-step displacement-gradient '
         'histories (monotonic, reversing, non-proportional random walks, repeated states, lanes of tiny increments sweeping the overstress from 1e-12 to 1e-6 Y0 across yield, E/Y0 from 30 to 1e4, perfect plasticity and a saturating Voce law in every run, increments from 1e-3 to 30 yield strains with the accumulated strain norm kept below 0.8, time steps 1e-3..10); '
         'a step is non-trivial when it yields; distinct = distinct (configuration, history, step) triples that yield')
-IMPORTS = ['From OV.gen Require Import Gen_Hardening Gen_J2Flow.', 'From OV.model Require Import M_C09.']
+IMPORTS = ['From OV.gen Require Import Gen_Hardening Gen_J2Flow.', 'From OV.model Require Import M_C09 M_C09T.']
 
 KINS = ['large deformations', 'small deformations', 'seth hill']
 LAWS = ['linear', 'voce', 'power law']
@@ -352,6 +369,134 @@ def kernel_checks(ctx):
     return mism
 
 
+def flow_stress_checks(ctx):
+    """stream `flow_stress`: the flow stresses / slopes WRITTEN OUT in the model (h_flow + k_flow, h_slope + k_slope; proved in Coq to be
+    the derivatives of the regenerated energies) at binary64 vs what the code uses: jax.grad of the hardening energy (and its grad)."""
+    import jax
+    import optimism  # noqa: F401
+    from optimism.material import Hardening
+    r = ctx.rng('flow_stress')
+    ex, want, meta = [], [], []
+    dist = {}
+    for i in range(ctx.n(60, 400)):
+        law = LAWS[i % 3]
+        rate = (i // 3) % 2 == 1
+        Y0 = 10.0 ** r.uniform(-2, 1)
+        P = {'yield strength': Y0, 'hardening model': law}
+        if law == 'linear':
+            P['hardening modulus'] = r.choice([0.0, Y0 * 10.0 ** r.uniform(-1, 2)])
+        elif law == 'voce':
+            P['saturation strength'] = Y0 * r.uniform(1.0, 3.0)
+            P['reference plastic strain'] = 10.0 ** r.uniform(-3, -1)
+        else:
+            P['hardening exponent'] = r.uniform(1.5, 12.0)
+            P['reference plastic strain'] = 10.0 ** r.uniform(-4, -1)
+        if rate:
+            P['rate sensitivity'] = 'power law'
+            P['rate sensitivity stress'] = Y0 * r.uniform(0.02, 0.5)
+            P['rate sensitivity exponent'] = r.uniform(1.5, 10.0)
+            P['reference plastic strain rate'] = 10.0 ** r.uniform(-3, 0)
+        hm = Hardening.create_hardening_model(P)
+        eo = r.choice([0.0, 10.0 ** r.uniform(-6, -0.3)])
+        at_old = rate and (i // 6) % 2 == 1                      # eqps = eqps_old: the overstress is 0, its slope infinite (slope not compared there)
+        e = eo if at_old else eo + 10.0 ** r.uniform(-12, -0.5)
+        dt = 10.0 ** r.uniform(-3, 1)
+        key = '%s/%s%s' % (law, 'rate' if rate else 'no-rate', '/at-eqps_old' if at_old else '')
+        dist[key] = dist.get(key, 0) + 1
+        cf = C.cf
+        ex.append('fencs [@nadd _ _ (h_flow %s %s) (k_flow %s %s %s %s); @nadd _ _ (h_slope %s %s) (k_slope %s %s %s %s)]'
+                  % (coq_law(P), cf(e), coq_rate(P), cf(e), cf(eo), cf(dt), coq_law(P), cf(e), coq_rate(P), cf(e), cf(eo), cf(dt)))
+        want.append([float(hm.compute_flow_stress(e, eo, dt)), float(jax.grad(hm.compute_flow_stress)(e, eo, dt))])
+        meta.append((P, e, eo, dt, at_old))
+    res = C.coq_eval(IMPORTS, ex, 'C09f', shard=200)
+    mism = 0
+    for e_, w, rr, (P, e, eo, dt, at_old) in zip(ex, want, res, meta):
+        got = C.dec_floats(rr)
+        # e - eo is formed by both sides from the same binary64 inputs; a power x**(1/m - 1) of it amplifies nothing beyond a few ulp
+        # Voce: jax differentiates expm1(x) as expm1(x) + 1, which near saturation (exp(x) ~ 1e-15) carries an ABSOLUTE error of an ulp of 1,
+        # i.e. ~2e-16 (Ysat - Y0)/eps0 in the slope; the model evaluates exp(x) directly.  Hence an absolute term at the scale of the slope at eqps = 0.
+        sl0 = {'linear': lambda: abs(P['hardening modulus']), 'voce': lambda: (P['saturation strength'] - P['yield strength']) / P['reference plastic strain'],
+               'power law': lambda: P['yield strength'] / (P['hardening exponent'] * P['reference plastic strain'])}[P['hardening model']]()
+        ok = C.close(got[0], w[0], rtol=1e-11, atol=1e-13 * abs(w[0])) and (at_old or C.close(got[1], w[1], rtol=1e-10, atol=1e-12 * abs(w[1]) + 1e-14 * sl0))
+        if not ok:
+            mism += 1
+            if mism <= 5:
+                ctx.fail('correspondence', 'model flow stress / slope %r, implementation (jax.grad of the hardening energy) %r for %s at eqps=%r eqps_old=%r dt=%r'
+                         % (got, w, P, e, eo, dt), case=dict(expr=e_, model=got, impl=w, props=P, eqps=e, eqps_old=eo, dt=dt))
+    ctx.count('flow_stress_comparisons', len(ex))
+    ctx.count('evaluations', len(ex))
+    ctx.cov['flow_stress_stream'] = dist
+    return mism
+
+
+def tensor_small_checks(ctx, l1):
+    """stream `tensor_small`: the tensor-level model of the small-deformation update (model/M_C09T.v: regenerated linear strain, flow direction,
+    scalar root solve, stateOld + stateInc, _energy_density, incremental_potential) at binary64 vs compute_state_new / compute_energy_density /
+    incremental_potential on the steps of this run's small-deformation histories."""
+    from optimism.material import J2Plastic as J2
+    r = ctx.rng('tensor_small')
+    cand = [x for x in l1 if x[0]['kin'] == 'small deformations']
+    yl = [x for x in cand if x[1]['new'][0] > x[1]['state'][0]]
+    el = [x for x in cand if not x[1]['new'][0] > x[1]['state'][0]]
+    r.shuffle(yl)
+    r.shuffle(el)
+    sel = yl[:ctx.n(50, 400)] + el[:ctx.n(15, 100)]
+    cf = C.cf
+
+    def m9(v):
+        return '(%s)' % ', '.join(cf(x) for x in v)
+
+    ex = []
+    for cfg, rec in sel:
+        P = cfg['props']
+        kappa = float(J2.make_properties(P['elastic modulus'], P['poisson ratio'], P['yield strength'])[J2.PROPS_KAPPA])
+        H = [x for row in rec['H'] for x in row]
+        st = '(%s, %s)' % (cf(rec['state'][0]), m9(rec['state'][1:]))
+        lw, rt, mu, dt = coq_law(P), coq_rate(P), cf(rec['mu']), cf(rec['dt'])
+        ex.append('enc_tstate (state_new_small %s %s %s %s %s %s)' % (lw, rt, mu, dt, m9(H), st))
+        ex.append('enc_optf (energy_small %s %s %s %s %s %s %s)' % (lw, rt, mu, cf(kappa), dt, m9(H), st))
+        ex.append('fencs [potential_tensor %s %s %s %s (strain_small %s %s) %s %s]' % (lw, rt, mu, dt, m9(H), st, cf(rec['state'][0]), cf(rec['new'][0])))
+    res = C.coq_eval(IMPORTS, ex, 'C09t', shard=90)
+    mism = skipped = 0
+    for i, (cfg, rec) in enumerate(sel):
+        P = cfg['props']
+        Y0, E = P['yield strength'], P['elastic modulus']
+        tol = 1e-10 * Y0
+        if abs(rec['s'] - rec['Yo'] - tol) < 1e-9 * (abs(rec['s']) + tol):
+            skipped += 1
+            continue
+        rs, re_, rp = res[3 * i], res[3 * i + 1], res[3 * i + 2]
+        what = None
+        d_impl = rec['new'][0] - rec['state'][0]
+        lim = 6 * tol / (3 * rec['mu']) + 1e-8 * abs(d_impl) + 1e-16
+        if rs[0] == 0 or re_[0] == 0:
+            what = 'model state / energy is NaN, implementation gives eqps %r -> %r' % (rec['state'][0], rec['new'][0])
+        else:
+            got = C.dec_floats(rs[1:])
+            if abs((got[0] - rec['state'][0]) - d_impl) > lim:
+                what = 'model eqps_new = %r, implementation %r' % (got[0], rec['new'][0])
+            else:
+                dm = max(abs(a - b) for a, b in zip(got[1:], rec['new'][1:]))
+                if dm > 1.3 * lim + 1e-13 * max(abs(x) for x in rec['new'][1:] + [1e-300]):
+                    what = 'model plastic strain differs from the implementation by %r (model %r, implementation %r)' % (dm, got[1:], rec['new'][1:])
+            w_model = C.dec_floats(re_[1:])[0]
+            if what is None and not C.close(w_model, rec['W_old'], rtol=1e-9, atol=1e-9 * Y0 * Y0 / E):
+                what = 'model energy density %r, implementation %r' % (w_model, rec['W_old'])
+            p_model = C.dec_floats(rp)[0]
+            if what is None and not C.close(p_model, rec['phi_star'], rtol=1e-10, atol=1e-10 * Y0 * Y0 / E):
+                what = 'model incremental potential %r, implementation %r' % (p_model, rec['phi_star'])
+        if what:
+            mism += 1
+            if mism <= 5:
+                ctx.fail('correspondence', 'tensor-level small-deformation model: %s (%s rate=%s, step %d of history %d)' % (what, cfg['law'], cfg['rate'], rec['k'], rec['b']),
+                         case=dict(props=P, H=rec['H'], state=rec['state'], dt=rec['dt'], impl_new=rec['new']))
+    ctx.count('tensor_small_comparisons', len(sel))
+    ctx.count('tensor_small_yielding', min(len(yl), ctx.n(50, 400)))
+    ctx.count('tensor_small_near_tie_skipped', skipped)
+    ctx.count('tensor_small_mismatches', mism)
+    ctx.count('evaluations', len(sel))
+
+
 def correspondence(ctx, model_ok):
     cfgs = gen_configs(ctx)
     nb, ns = ctx.n(13, 36), ctx.n(8, 16)
@@ -388,6 +533,8 @@ def correspondence(ctx, model_ok):
         return
     # ---- L1: regenerated kernels, then the scalar radial-return model against compute_state_new
     kernel_checks(ctx)
+    flow_stress_checks(ctx)
+    tensor_small_checks(ctx, l1)
     r = ctx.rng('l1')
     pick = [x for x in l1 if x[1]['new'][0] > x[1]['state'][0]]
     rest = [x for x in l1 if not x[1]['new'][0] > x[1]['state'][0]]
